@@ -229,7 +229,10 @@ def gen_case(rng, idx: int, base: str = ""):
                     opts.append(rng.choice(["Abstract=Link abstract for " + n,
                                             "Abstract=first part\\\nsecond part\\\nthird part",
                                             # continuation lines are text, whatever they begin with
-                                            "Abstract=Top three this week:\\\n#1 first\\\n#2 second\\\nName=not a field"]))
+                                            "Abstract=Top three this week:\\\n#1 first\\\n#2 second\\\nName=not a field",
+                                            # only the LAST backslash continues the line; the ones before it are text
+                                            "Abstract=Files live in C:\\GOPHER\\\\\nsecond line",
+                                            "Abstract=three \\\\\\\nnext \\ mid\\\nlast"]))
                 rng.shuffle(opts)
                 lines += opts
                 rng.shuffle(lines)
@@ -260,7 +263,8 @@ def gen_case(rng, idx: int, base: str = ""):
                     lines.append("Numb=%d" % numbers.pop())
                 if rng.random() < 0.25:
                     lines.append(rng.choice(["Abstract=About " + name, "Abstract=About " + name,
-                                             "Abstract=Ranking:\\\n# 1 " + name + "\\\n#2 the rest"]))
+                                             "Abstract=Ranking:\\\n# 1 " + name + "\\\n#2 the rest",
+                                             "Abstract=In D:\\PUB\\\\\nof " + name]))
                 rng.shuffle(lines)
             # 'Numb=' cannot be the last line of a link (manual)
             if lines and lines[-1].startswith("Numb=") and len(lines) > 1:
